@@ -390,6 +390,12 @@ def randomised(spec, acc):
                 # the same names as instances of a str subclass / members of a str-mixin Enum or a StrEnum
                 other_containers(ev, mods, imps, cfg, rnd.choice(["strsub", "enum", "strenum"]), acc)
                 acc.count("rules_with_names_of_another_str_type")
+            if rnd.random() < 0.05:
+                other_containers(ev, mods, imps, cfg, "statements", acc)
+                acc.count("rules_written_as_statements_on_one_name")
+            if rnd.random() < 0.05:
+                other_containers(ev, mods, imps, cfg, "keywords", acc)
+                acc.count("rules_with_arguments_passed_by_keyword")
             done += 1
             acc.hist("batch_size", f"{len(cfg['subs'])}x{len(cfg['objs'])}")
             if done % 25 == 0 and cfg["objs"] and not cfg["anything"] and cfg["objs"][0][0] != "regex":
@@ -463,6 +469,8 @@ def floors(acc, tier):
     for how in ("deepcopy", "pickle"):
         if acc.counters["rules_finished_on_a_copy_of_a_kept_prefix:" + how] < 100:
             why.append(f"only {acc.counters['rules_finished_on_a_copy_of_a_kept_prefix:' + how]} rules finished on a {how} copy of a kept prefix")
+    if acc.counters["rules_written_as_statements_on_one_name"] < 100:
+        why.append("too few rules written as statements on one name")
     if acc.counters["rules_with_names_of_another_str_type"] < 100:
         why.append(f"only {acc.counters['rules_with_names_of_another_str_type']} rules with names of another str type")
     if acc.counters["rules_retargeted_after_application"] < 100:
